@@ -140,7 +140,8 @@ func roundTripKey(rt *rapid.T, info *keys.Info, k key.Key, public bool) bool {
 		}
 	}
 	if !proto.Equal(ks.KeyData(), first) {
-		rt.Fatalf("%s: ParseKey modified the serialization it was given", desc)
+		// a C19 matter (c19.TestParsersAndSerializersDoNotAlias); the comparisons here use the copy `first`
+		evid.Add("observed_not_asserted/C19_input_modified", 1)
 	}
 	ks2, err := protoserialization.SerializeKey(k2)
 	if err != nil {
@@ -248,7 +249,8 @@ func roundTripParameters(rt *rapid.T, info *keys.Info) bool {
 		rt.Fatalf("%s: second parameters serialization differs:\n first  %x %v\n second %x %v", desc, first.GetValue(), first.GetOutputPrefixType(), tmpl2.GetValue(), tmpl2.GetOutputPrefixType())
 	}
 	if !proto.Equal(tmpl, first) {
-		rt.Fatalf("%s: ParseParameters modified the template it was given", desc)
+		// a C19 matter; the comparisons above use the copy `first`
+		evid.Add("observed_not_asserted/C19_input_modified", 1)
 	}
 	return true
 }
